@@ -769,3 +769,61 @@ def c_is_object(ex, st, callee, a): return [(None, JV.is_Obj(to_jv(st, a[0])))]
 
 @contract(r'^<serde_json::Value as Clone>::clone$')
 def c_value_clone(ex, st, callee, a): return [(None, to_jv(st, a[0]))]
+
+
+# ----------------------------------------------------------------------------- slices of &str, iterator predicates, ASCII case, trim (C18)
+ascii_lower = Function('ascii_lowercase', S, S)
+str_trim = Function('str_trim', S, S)
+
+
+def _str_array(st, v):
+    v = deref(st, v)
+    while isinstance(v, tuple) and v[0] == 'ref': v = deref(st, v)
+    if isinstance(v, tuple) and v[0] == 'array': return [deref(st, x) for x in v[1]]
+    raise Unsupported('array of strings: ' + str(v)[:60])
+
+
+@contract(r'^core::slice::<impl \[&str\]>::contains$')
+def c_str_slice_contains(ex, st, callee, a):
+    xs = _str_array(st, a[0]); k = as_str(st, a[1])
+    ex.stats['bounds']['elements of a searched &str array'] = len(xs)
+    return [(None, Or(*[k == x for x in xs]) if xs else BoolVal(False))]
+
+
+@contract(r'^core::slice::<impl \[&str\]>::iter$')
+def c_str_slice_iter(ex, st, callee, a): return [(None, ('striter', tuple(_str_array(st, a[0]))))]
+
+
+@contract(r'^<std::slice::Iter<\'_, &str> as Iterator>::any::<')
+def c_str_iter_any(ex, st, callee, a):
+    it = deref(st, a[0]); xs = it[1]; states = [(st, BoolVal(False))]
+    for x in xs:
+        nxt = []
+        for s1, acc in states:
+            xc = s1.new_cell(x)
+            for s2, r in call_closure(ex, s1, a[1], callee, [('ref', xc, ())]): nxt.append((s2, Or(acc, r)))
+        states = nxt
+    return [(None, simplify(acc), s2) for s2, acc in states]
+
+
+@contract(r'^core::str::<impl str>::eq_ignore_ascii_case$')
+def c_eq_ignore_case(ex, st, callee, a): return [(None, ascii_lower(as_str(st, a[0])) == ascii_lower(as_str(st, a[1])))]
+
+
+@contract(r'^core::str::<impl str>::(to_ascii_lowercase|to_lowercase)$')
+def c_to_lower(ex, st, callee, a): return [(None, ascii_lower(as_str(st, a[0])))]
+
+
+@contract(r'^core::str::<impl str>::(trim|trim_start|trim_end)$')
+def c_trim(ex, st, callee, a): return [(None, str_trim(as_str(st, a[0])))]
+
+
+def text_lemmas(assertions):
+    apps = cm.applications(assertions); lem = []
+    for t in apps.get('ascii_lowercase', []):
+        x = t.arg(0)
+        if is_string_value(x): lem.append(t == StringVal(x.as_string().lower()))
+        lem.append(ascii_lower(t) == t); lem.append(Length(t) == Length(x))
+    for t in apps.get('str_trim', []):
+        lem.append(Length(t) <= Length(t.arg(0))); lem.append(str_trim(t) == t)
+    return lem
